@@ -120,7 +120,33 @@ theorem contract_flows_iff_default (p : OneCall) (hi : p.i < p.sg.nParams)
       k < p.sg.nParams ∧ k ≠ p.i ∧ p.ptr k = true ∧ ∃ row, p.spec.args[p.i]? = some row ∧ (k : Int) ∈ row) :=
   contract_flows_iff p hi hidx _ (contract_visit_terminates p hi hidx)
 
+/-! ### call forms -/
+
+/-- **Deferred and spawned calls** (`defer f(a…)`, `go f(a…)`).  The language discards the results of such a
+call: the call node has no out edge, and the driver runs the model on the *observed* signature
+`⟨nParams, 0⟩`.  Nothing is lost by that: no result flow is reported, the argument flows are those of the run
+on the full signature, i.e. exactly the listed ones.  (Which instruction — `Call`, `Defer`, `Go` — carries the
+call is not an input of `resolveCallee` / `linkCallee`: `Call` has no such field, so the theorems of the
+previous section hold for every call form; closures and method expressions only change the function that
+contains the call, which `OneCall` does not mention either.) -/
+theorem contract_flows_discarded_results (p : OneCall) (hi : p.i < p.sg.nParams)
+    (hidx : ∀ j, j < p.sg.nResults → p.resIdx j = (j : Int)) :
+    let p0 : OneCall := { p with sg := ⟨p.sg.nParams, 0⟩ }
+    (∀ j, Sum.inl j ∉ (visitOneCall p0 (defaultFuel p0)).reported) ∧
+    (∀ k, Sum.inr k ∈ (visitOneCall p0 (defaultFuel p0)).reported ↔
+      Sum.inr k ∈ (visitOneCall p (defaultFuel p)).reported) ∧
+    (∀ k, Sum.inr k ∈ (visitOneCall p0 (defaultFuel p0)).reported ↔
+      k < p.sg.nParams ∧ k ≠ p.i ∧ p.ptr k = true ∧ ∃ row, p.spec.args[p.i]? = some row ∧ (k : Int) ∈ row) := by
+  intro p0
+  have h0 := contract_flows_iff_default p0 hi (fun j hj => absurd hj (Nat.not_lt_zero _))
+  have h := contract_flows_iff_default p hi hidx
+  exact ⟨fun j hj => Nat.not_lt_zero _ ((h0.1 j).1 hj).1, fun k => (h0.2 k).trans (h.2 k).symm, h0.2⟩
+
 /-! ### non-vacuity -/
+
+/-- a deferred call of a two-result function: only the listed argument flow is observable. -/
+example : (visitOneCall ⟨⟨2, 0⟩, ⟨[[0, 1], []], [[0, 1], []]⟩, 0, fun _ => true, fun j => j⟩ 30).reported = [.inr 1] := by
+  decide
 
 example : (visitOneCall ⟨⟨3, 2⟩, ⟨[[1], [2], []], [[], [], [1]]⟩, 0, fun _ => true, fun j => j⟩ 30).reported = [.inr 1] := by
   decide
@@ -145,5 +171,6 @@ example : resolveCallee (B := Unit)
 #print axioms contract_flows_iff
 #print axioms contract_visit_terminates
 #print axioms contract_flows_iff_default
+#print axioms contract_flows_discarded_results
 
 end Argot.Contract
